@@ -286,18 +286,24 @@ def act (c : Cfg) (s : Sh) : Pc → Option (Pc × Sh × List Pc)
   | .cWait k => if s.closedSig then some (resume k, s, []) else none
   | .cCancel k => some (.cTake k, { s with cancelled := true }, [])
   | .cTake k => some (.cKids (order c (s.children.getD [])) k, { s with children := none }, [])
-  | .cKids [] k => some (.cTakeD k, s, [])
-  | .cKids (ch :: rest) k => some (.kCas ch (.kids rest k), s, [])
+  | .cKids l k =>
+    match l with
+    | [] => some (.cTakeD k, s, [])
+    | ch :: rest => some (.kCas ch (.kids rest k), s, [])
   | .cTakeD k => some (.cDrain (s.disposables.getD []).reverse k, { s with disposables := none }, [])
-  | .cDrain [] k => some (.cDetS k, s, [])
-  | .cDrain (i :: rest) k => some (.cDrain rest k, s.userClose i, [])
+  | .cDrain l k =>
+    match l with
+    | [] => some (.cDetS k, s, [])
+    | i :: rest => some (.cDrain rest k, s.userClose i, [])
   | .cDetS k => some (.cNil k, s.scopeDelete 0, [])
   | .cNil k => some (.cSig k, { s with cache := none }, [])
   | .cSig k => some (resume k, { s with closedSig := true }, [])
   | .pCas => if s.pdisposed then some (.done .okUnit, s, []) else some (.pTake, { s with pdisposed := true }, [])
   | .pTake => some (.pScopes (order c (s.scopes.getD [])), { s with scopes := none }, [])
-  | .pScopes [] => some (.pRest, s, [])
-  | .pScopes (x :: rest) => if x = 0 then some (.cCas (.scopes rest), s, []) else some (.kCas x (.scopes rest), s, [])
+  | .pScopes l =>
+    match l with
+    | [] => some (.pRest, s, [])
+    | x :: rest => if x = 0 then some (.cCas (.scopes rest), s, []) else some (.kCas x (.scopes rest), s, [])
   | .pRest => some (.done .okUnit, { s with singletons := false }, [])
   | .wS => if s.cancelled then some (.cCas (.ret .okUnit), s, []) else none
   | .wKid ch => if s.cancelled || decide (ch ∈ s.kidDisp) then some (.kCas ch (.ret .okUnit), s, []) else none
@@ -306,6 +312,7 @@ def act (c : Cfg) (s : Sh) : Pc → Option (Pc × Sh × List Pc)
 
 structure Thr where
   cfg : Cfg := {}
+  start : Pc     -- ghost: the program this thread was started with (never changes)
   pc : Pc
 deriving DecidableEq, Repr
 
@@ -314,7 +321,7 @@ structure Sys where
   thr : List Thr
 deriving DecidableEq, Repr
 
-def spawn (l : List Pc) : List Thr := l.map (fun p => { pc := p })
+def spawn (l : List Pc) : List Thr := l.map (fun p => { start := p, pc := p })
 
 /-- executable step of thread number `t` -/
 def step? (s : Sys) (t : Nat) : Option Sys :=
